@@ -296,7 +296,7 @@ class Ctx:
         return accepted, nev, mism
 
     # ---------------------------------------------------------------- Go
-    def gotest(self, module, pkg, files, run, env=None, timeout=600, tags="verif", extra_files=None, race=False):
+    def gotest(self, module, pkg, files, run, env=None, timeout=600, tags="verif", extra_files=None, race=False, hang_guard=None):
         """Run an in-package harness: files (paths relative to /verif/harness) are overlaid into
         <repo>/<module>/<pkg>/ and `go test -tags verif -run <run>` is executed there."""
         ov = {"Replace": {}}
@@ -323,11 +323,44 @@ class Ctx:
             cmd.append("-race")
         cmd.append("./" + pkg if pkg else ".")
         t = time.time()
-        try:
-            p = subprocess.run(cmd, cwd=os.path.join(REPO, module), env=e, stdout=subprocess.PIPE,
-                               stderr=subprocess.STDOUT, timeout=timeout + 60, text=True, errors="replace")
-        except subprocess.TimeoutExpired:
-            raise Broken("go test timed out: %s %s" % (pkg, run))
+        if hang_guard:
+            # The code under test not returning is a verdict, not a machinery failure.  The harness writes the call it is
+            # about to make into a small side record (VERIF_PENDING) before every call of the real code; if the test
+            # process tree burns more than cpu_s CPU-seconds (decided by CPU time, not wall clock) it is killed and the
+            # pending call is handed back to the check, which reports it.
+            pend = hang_guard["pending"]
+            e["VERIF_PENDING"] = pend
+            outp = os.path.join(self.work, "gotest_hg%d.out" % self._novl)
+            with open(outp, "w") as fo:
+                pr = subprocess.Popen(cmd, cwd=os.path.join(REPO, module), env=e, stdout=fo, stderr=subprocess.STDOUT,
+                                      start_new_session=True)
+                hung = None
+                while pr.poll() is None:
+                    time.sleep(1.0)
+                    cpu = _session_cpu(pr.pid)
+                    if cpu > hang_guard.get("cpu_s", 150) or time.time() - t > timeout + 60:
+                        try:
+                            os.killpg(pr.pid, signal.SIGKILL)
+                        except Exception:
+                            pass
+                        pr.wait()
+                        if cpu > hang_guard.get("cpu_s", 150):
+                            hung = {"cpu_s": round(cpu), "pending": _read_pending(pend)}
+                        else:
+                            raise Broken("go test timed out (wall clock, %.0f CPU-s used): %s %s" % (cpu, pkg, run))
+                        break
+            out = open(outp, errors="replace").read()
+            if hung is not None:
+                self.last_hang = hung
+                return -9, out, time.time() - t
+            p = pr
+            p.stdout = out
+        else:
+            try:
+                p = subprocess.run(cmd, cwd=os.path.join(REPO, module), env=e, stdout=subprocess.PIPE,
+                                   stderr=subprocess.STDOUT, timeout=timeout + 60, text=True, errors="replace")
+            except subprocess.TimeoutExpired:
+                raise Broken("go test timed out: %s %s" % (pkg, run))
         out = p.stdout
         with open(os.path.join(self.work, "gotest%d_%d.out" % (self._novl, len(os.listdir(self.work)))), "w") as f:
             f.write(out)
@@ -383,6 +416,33 @@ class Ctx:
             rc = 1 if self.violations else 0
         self.log("done: %d violation(s), %d known finding(s), exit %d" % (len(self.violations), len(self.known), rc))
         return rc
+
+
+def _session_cpu(sid):
+    """CPU seconds (user+system) used so far by the live processes of session sid."""
+    tck = os.sysconf("SC_CLK_TCK")
+    total = 0.0
+    for d in os.listdir("/proc"):
+        if not d.isdigit():
+            continue
+        try:
+            with open("/proc/%s/stat" % d) as f:
+                st = f.read()
+            rest = st[st.rindex(")") + 2:].split()
+            if int(rest[3]) == sid:          # field 6: session id
+                total += (int(rest[11]) + int(rest[12])) / tck   # utime + stime
+        except Exception:
+            continue
+    return total
+
+
+def _read_pending(path):
+    try:
+        with open(path, "rb") as f:
+            raw = f.read(512).split(b"\x00")[0].decode(errors="replace").strip()
+        return json.loads(raw) if raw.startswith("{") else raw
+    except Exception:
+        return None
 
 
 def load_known_findings():
